@@ -3,9 +3,8 @@
      RV l : "l is the node list of a valid real tour"  (equivalent to [valid_tour_nodes nw l = true]) and
      DV l : "l is the node list of a fine dummy tour"  (non-empty, no depots, consecutive nodes connectable).
    Everything is derived from the reference semantics of TourFacts.v ([insert_nodes_ref_at], [remove_nodes_ref_at]).
-   Network hypotheses: [net_wf_b] and [durations_pos_b] (the two halves of [net_ok_b]); the single lemma about
-   [tour_new_dummy] needs in addition that reachability survives dropping a maintenance slot
-   ([reach_skips_maint]) — without it dummy tours need not be connectable (see SchedToursFacts.v). *)
+   Network hypotheses: [net_wf_b] and [durations_pos_b] (the two halves of [net_ok_b]), and only where times
+   matter. [tour_new_dummy] drops the depots only, which keeps a connected list connected. *)
 From RS Require Import Base BaseFacts Network NetSpec NetFacts Tour TourSpec TourStmts TourFacts.
 From Coq Require Import Arith.
 Local Open Scope nat_scope.
@@ -743,46 +742,38 @@ Proof.
   split; [apply slice_valid_path; assumption|]. eexists _, _. reflexivity.
 Qed.
 
-(** ** dummy tours made from a removed path *)
+(** ** dummy tours made from a removed path (Tour::new_dummy drops the depots only, since the repair
+       "fix: Tour::new_dummy must keep maintenance nodes") *)
+Notation nondepb := (fun n => negb (node_is_depot nw n)).
+
 Lemma tour_new_dummy_nodes path dt : tour_new_dummy nw path = Ok dt ->
-  t_nodes dt = filter (node_is_service nw) path /\ t_dummy dt = true /\ t_nodes dt <> [].
+  t_nodes dt = filter nondepb path /\ t_dummy dt = true /\ t_nodes dt <> [].
 Proof.
-  unfold tour_new_dummy. destruct (filter (node_is_service nw) path) as [|a r] eqn:E; [discriminate|].
-  intros H. inversion H; subst. cbn [new_computing t_nodes t_dummy]. repeat split; auto. discriminate.
+  unfold tour_new_dummy. destruct (existsb (node_is_service nw) (filter nondepb path)) eqn:E; [|discriminate].
+  intros H. inversion H; subst. cbn [new_computing t_nodes t_dummy]. repeat split; auto.
+  intros N. rewrite N in E. discriminate.
 Qed.
 
-Definition reach_skips_maint_at : Prop :=
-  forall a m b, is_maint (nd nw m) = true -> cr a m = true -> cr m b = true -> cr a b = true.
-
-Lemma not_service_cases x : node_is_service nw x = false -> is_maint (nd nw x) = true \/ dep x = true.
-Proof. unfold node_is_service, node_is_depot. destruct (nd nw x); cbn; auto; discriminate. Qed.
-
-Lemma service_nondep x : node_is_service nw x = true -> dep x = false.
-Proof. unfold node_is_service, node_is_depot. destruct (nd nw x); cbn; auto; discriminate. Qed.
-
-Section Skip.
-Hypothesis MS : reach_skips_maint_at.
-
+(* a start depot can only be the first and an end depot only the last node of a connected list, so dropping the
+   depots keeps it connected *)
 Lemma reach_first_kept r : forall a b r', connected nw (a :: r) ->
-  filter (node_is_service nw) r = b :: r' -> cr a b = true.
+  filter nondepb r = b :: r' -> cr a b = true.
 Proof.
   induction r as [|x r IH]; intros a b r' C F; [discriminate|].
   assert (Cax : cr a x = true) by (apply C; left; reflexivity).
-  cbn [filter] in F. destruct (node_is_service nw x) eqn:Sx.
-  - inversion F; subst. exact Cax.
+  cbn [filter] in F. destruct (dep x) eqn:Dx; cbn [negb] in F.
   - pose proof (IH x b r' (connected_tl nw _ _ C) F) as Cxb.
-    destruct (not_service_cases x Sx) as [M|D].
-    + apply (MS a x b); assumption.
-    + exfalso. rewrite dep_split in D. apply orb_true_iff in D.
-      destruct (cr_ends _ _ Cax) as [Q1 _]. destruct (cr_ends _ _ Cxb) as [_ Q2]. destruct D; congruence.
+    exfalso. rewrite dep_split in Dx. apply orb_true_iff in Dx.
+    destruct (cr_ends _ _ Cax) as [Q1 _]. destruct (cr_ends _ _ Cxb) as [_ Q2]. destruct Dx; congruence.
+  - inversion F; subst. exact Cax.
 Qed.
 
-Lemma filter_service_connected l : connected nw l -> connected nw (filter (node_is_service nw) l).
+Lemma filter_nondep_connected l : connected nw l -> connected nw (filter nondepb l).
 Proof.
   induction l as [|a l IH]; intros C; [intros x y []|].
   specialize (IH (connected_tl nw _ _ C)). cbn [filter].
-  destruct (node_is_service nw a) eqn:Sa; [|exact IH].
-  destruct (filter (node_is_service nw) l) as [|b r'] eqn:F; [intros x y []|].
+  destruct (negb (dep a)); [|exact IH].
+  destruct (filter nondepb l) as [|b r'] eqn:F; [intros x y []|].
   apply connected_chain. apply chain_cons2. split; [|apply connected_chain; exact IH].
   eapply reach_first_kept; eauto.
 Qed.
@@ -791,10 +782,9 @@ Lemma tour_new_dummy_valid path dt : connected nw path -> tour_new_dummy nw path
   t_dummy dt = true /\ DV (t_nodes dt).
 Proof.
   intros C H. destruct (tour_new_dummy_nodes _ _ H) as (EN & D & NE). split; [exact D|].
-  split; [exact NE|]. rewrite EN. split; [apply filter_service_connected; exact C|].
-  intros z Hz. apply filter_In in Hz. apply service_nondep. tauto.
+  split; [exact NE|]. rewrite EN. split; [apply filter_nondep_connected; exact C|].
+  intros z Hz. apply filter_In in Hz. destruct Hz as [_ Hz]. apply negb_true_iff in Hz. exact Hz.
 Qed.
-End Skip.
 
 (** * Facts that need a well-formed network with positive activity durations *)
 Hypothesis WF : net_wf_b nw = true.
@@ -862,10 +852,6 @@ Proof.
   inversion L1; inversion L2; subst. reflexivity.
 Qed.
 End Valid.
-
-Definition reach_skips_maint (nw : network) : Prop :=
-  forall a m b, is_maint (nd nw m) = true -> can_reach nw a m = true -> can_reach nw m b = true ->
-                can_reach nw a b = true.
 
 Print Assumptions valid_tour_nodes_RV.
 Print Assumptions insert_path_valid.
